@@ -209,7 +209,11 @@ func buildTargets() []*target {
 		return d(err)
 	}, lctC)
 	add("sm2", "sm2.legacy.priv.Decrypt(P256,ASN1opts)", func(b []byte) int { _, err := lk.Decrypt(nil, b, sm2.ASN1DecrypterOpts); return d(err) }, lctA)
-	lsigR, lsigS, _ := sm2.Sign(rnd, &lk.PrivateKey, hash)
+	// (not produced with sm2.Sign: under -tags purego the Go 1.23 standard library's
+	// nistec P-256 scalar inversion is an unimplemented stub and the legacy signer,
+	// which uses it through the curve's Inverse method, panics - a toolchain issue,
+	// not an input-handling one)
+	lsigR, lsigS := new(big.Int).SetBytes(gen.Fill(78, 32)), new(big.Int).SetBytes(gen.Fill(79, 32))
 	add("sm2", "sm2.legacy.Verify(P256,rs=input)", func(b []byte) int {
 		h2 := len(b) / 2
 		return db(sm2.Verify(&lk.PublicKey, hash, new(big.Int).SetBytes(b[:h2]), new(big.Int).SetBytes(b[h2:])))
